@@ -53,6 +53,53 @@ theorem fileNameOK_nat (il : Int → Bool) (n : Nat) :
   · have h' : ¬ (n : Int) < 128 := by omega
     simp [h, h', pure]
 
+/-! ### the same on arbitrary `Int` runes (negative values are rejected on both sides) -/
+
+theorem firstPathOK_int (r : Int) : Generated.Module.firstPathOK r = Module.firstPathOK r.toNat := by
+  by_cases h : 0 ≤ r
+  · obtain ⟨n, rfl⟩ := Int.eq_ofNat_of_zero_le h
+    simpa using firstPathOK_nat n
+  · have h0 : r.toNat = 0 := by omega
+    rw [h0]
+    simp only [Generated.Module.firstPathOK, Module.firstPathOK]
+    rw [Bool.eq_iff_iff]; simp; omega
+
+theorem modPathOK_int (r : Int) : Generated.Module.modPathOK r = Module.modPathOK r.toNat := by
+  by_cases h : 0 ≤ r
+  · obtain ⟨n, rfl⟩ := Int.eq_ofNat_of_zero_le h
+    simpa using modPathOK_nat n
+  · have h0 : r.toNat = 0 := by omega
+    rw [h0]
+    have h' : r < 128 := by omega
+    simp only [Generated.Module.modPathOK, Module.modPathOK, Id.run, h', decide_true, if_true, pure]
+    rw [Bool.eq_iff_iff]; simp; omega
+
+theorem importPathOK_int (r : Int) : Generated.Module.importPathOK r = Module.importPathOK r.toNat := by
+  by_cases h : 0 ≤ r
+  · obtain ⟨n, rfl⟩ := Int.eq_ofNat_of_zero_le h
+    simpa using importPathOK_nat n
+  · have h0 : r.toNat = 0 := by omega
+    simp only [Generated.Module.importPathOK, Module.importPathOK, modPathOK_int, h0]
+    have : ¬ r = 43 := by omega
+    simp [this]
+
+theorem fileNameOK_int (il : Int → Bool) (r : Int) :
+    Generated.Module.fileNameOK il r = Module.fileNameOK (natLetter il) r.toNat := by
+  by_cases h : 0 ≤ r
+  · obtain ⟨n, rfl⟩ := Int.eq_ofNat_of_zero_le h
+    simpa using fileNameOK_nat il n
+  · have h0 : r.toNat = 0 := by omega
+    have h' : r < 128 := by omega
+    have hc : containsRune ([33, 35, 36, 37, 38, 40, 41, 43, 44, 45, 46, 61, 64, 91, 93, 94, 95, 123, 125, 126, 32] : Bytes) r = false := by
+      simp only [containsRune, encodeRune, h0]; decide +kernel
+    simp only [Generated.Module.fileNameOK, Module.fileNameOK, Id.run, h', decide_true, if_true, pure, h0, hc]
+    have e : (((decide ((48 : Int) ≤ r)) && (decide (r ≤ (57 : Int)))) ||
+        ((decide ((65 : Int) ≤ r)) && (decide (r ≤ (90 : Int)))) ||
+        ((decide ((97 : Int) ≤ r)) && (decide (r ≤ (122 : Int))))) = false := by
+      rw [Bool.eq_false_iff]; simp; omega
+    rw [e]; simp [Module.fileNameAllowed]
+
+
 /-- Go's `pathKind` constants (`modulePath = iota`, `importPath`, `filePath`) -/
 def kindInt : Module.Kind → Int
   | .module => 0
